@@ -303,7 +303,9 @@ class Compiler:
                 edge.tag = self.temp_tag_index
                 # edge.tag = len(self.named_pats) - tag
             edge.cons_sets = next(pm[1] for pm in p_moves if pm[2] == pm_str)
-            edge.dest = self._generate_node(depth + 1, new_context, node.id, previous_tags | {tag})
+            # Temporary patterns are never "matched before": every occurrence is a new pattern
+            next_tags = previous_tags | {tag} if tag >= 0 else previous_tags
+            edge.dest = self._generate_node(depth + 1, new_context, node.id, next_tags)
             node.p_edges.append(edge)
         return node.id
 
